@@ -36,15 +36,39 @@ var (
 	dworker *runner.DiagnosisWorker
 )
 
-const dispURL = "c17.example.com/orders"
+const dispHost = "c17.example.com"
+
+var dispSeq int
 
 type dispState struct {
 	tree     *config.EndpointPolicyTree
 	policies *sharedConfig.PoliciesConfig
 	early    int
+	kind     string            // fixed | strategy | concurrency : the early-answering remedy
+	url      map[string]string // endpoint letter (r: with retry remedy, n: without) -> URL
+	path     map[string]string
 }
 
-func newDispatch(p *policyState, early int) (*dispState, error) {
+// earlyRemedy: the remedy that makes the gateway answer by itself.
+//   fixed       : FixedResponse (answers early when the request carries `early-response: true`)
+//   strategy    : StrategyBasedThrottling, 1 request per hour (quota used up by the warm-up request)
+//   concurrency : ConcurrencyBasedThrottling, 1 slot (held by the warm-up request, never released)
+func earlyRemedy(kind, name string, status int) sharedConfig.Remedy {
+	r := sharedConfig.Remedy{Name: name, Enabled: true}
+	switch kind {
+	case "strategy":
+		r.Config.StrategyBasedThrottling = &sharedConfig.StrategyBasedThrottlingConfig{
+			AllowedRequestCount: 1, WindowSizeInSeconds: 3600, ResponseStatusCode: status}
+	case "concurrency":
+		r.Config.ConcurrencyBasedThrottling = &sharedConfig.ConcurrencyBasedThrottlingConfig{
+			MaxConcurrentRequests: 1, ResponseStatusCode: status}
+	default:
+		r.Config.FixedResponse = &sharedConfig.FixedResponseConfig{StatusCode: status}
+	}
+	return r
+}
+
+func newDispatch(p *policyState, early int, kind string) (*dispState, error) {
 	svcOnce.Do(func() {
 		svc, svcErr = services.Initialize(&nullWriter{}, 15*time.Second, sharedConfig.Exporters{})
 		if svcErr == nil {
@@ -54,15 +78,22 @@ func newDispatch(p *policyState, early int) (*dispState, error) {
 	if svcErr != nil {
 		return nil, svcErr
 	}
-	endpoints := []sharedConfig.EndpointConfig{{
-		Method: "GET",
-		URL:    dispURL,
-		Remedies: []sharedConfig.Remedy{
-			{Name: "c17-fixed", Enabled: true, Config: sharedConfig.RemedyConfig{
-				FixedResponse: &sharedConfig.FixedResponseConfig{StatusCode: early}}},
-			{Name: "c17-retry", Enabled: true, Config: sharedConfig.RemedyConfig{Retry: p.cfg}},
-		},
-	}}
+	// limiter state of the throttling remedies lives in the process-wide services: fresh remedy
+	// names and URLs per case keep cases independent
+	dispSeq++
+	d := &dispState{early: early, kind: kind,
+		path: map[string]string{"r": fmt.Sprintf("/d%d/orders", dispSeq), "n": fmt.Sprintf("/d%d/plain", dispSeq)}}
+	d.url = map[string]string{"r": dispHost + d.path["r"], "n": dispHost + d.path["n"]}
+	endpoints := []sharedConfig.EndpointConfig{
+		{Method: "GET", URL: d.url["r"], Remedies: []sharedConfig.Remedy{
+			earlyRemedy(kind, fmt.Sprintf("c17-%s-%d-r", kind, dispSeq), early),
+			{Name: fmt.Sprintf("c17-retry-%d", dispSeq), Enabled: true, Config: sharedConfig.RemedyConfig{Retry: p.cfg}},
+		}},
+		// an endpoint WITHOUT a retry remedy
+		{Method: "GET", URL: d.url["n"], Remedies: []sharedConfig.Remedy{
+			earlyRemedy(kind, fmt.Sprintf("c17-%s-%d-n", kind, dispSeq), early),
+		}},
+	}
 	tree, err := config.BuildEndpointPolicyTree(endpoints)
 	if err != nil {
 		return nil, err
@@ -73,7 +104,31 @@ func newDispatch(p *policyState, early int) (*dispState, error) {
 	}
 	// fresh real plugin on this case's clock
 	svc.Remedies.RetryPlugin = p.plugin
-	return &dispState{tree: tree, policies: pc, early: early}, nil
+	d.tree, d.policies = tree, pc
+	if kind != "fixed" {
+		// warm-up: use up the quota / take the only slot of both endpoints
+		for _, ep := range []string{"r", "n"} {
+			acts, err := runner.DispatchOnRequest(d.request(p, "warm-"+ep, "warm-"+ep, ep, false), tree, pc, svc, dworker)
+			if err != nil {
+				return nil, err
+			}
+			if st, _, _ := inspectActions(acts); st != 0 {
+				return nil, fmt.Errorf("warm-up request on endpoint %s was answered early (%d)", ep, st)
+			}
+		}
+	}
+	return d, nil
+}
+
+func (d *dispState) request(p *policyState, id, seq, ep string, earlyHdr bool) lunarMessages.OnRequest {
+	hdr := map[string]string{"host": dispHost}
+	if earlyHdr {
+		hdr["early-response"] = "true"
+	}
+	return lunarMessages.OnRequest{
+		ID: id, SequenceID: seq, Method: "GET", Scheme: "https", URL: d.url[ep], Path: d.path[ep],
+		Headers: hdr, Time: p.clk.Now(),
+	}
 }
 
 // inspect returns (early status or 0, value of x-lunar-retry-after or "", present)
@@ -105,10 +160,17 @@ func dispatchOp(st *caseState, w []string) string {
 		if !ok || early < 100 || early > 599 {
 			return "bad-op"
 		}
+		kind, okk := kvS(w, "kind")
+		if !okk {
+			kind = "fixed"
+		}
+		if kind != "fixed" && kind != "strategy" && kind != "concurrency" {
+			return "bad-op"
+		}
 		if a := policyOp(st, append([]string{"pcfg"}, w[1:]...)); a != "ok" {
 			return a
 		}
-		d, err := newDispatch(st.po, int(early))
+		d, err := newDispatch(st.po, int(early), kind)
 		if err != nil {
 			return "err:setup:" + proto.Enc(err.Error())
 		}
@@ -122,21 +184,23 @@ func dispatchOp(st *caseState, w []string) string {
 		if p == nil || d == nil || !ok1 || !ok2 || !ok3 || (early != 0 && early != 1) {
 			return "bad-op"
 		}
-		hdr := map[string]string{"host": "c17.example.com"}
-		if early == 1 {
-			hdr["early-response"] = "true"
+		ep, okE := kvS(w, "ep")
+		if !okE {
+			ep = "r"
+		}
+		// a throttling remedy whose quota/slot is used up answers EVERY request early
+		if (ep != "r" && ep != "n") || (d.kind != "fixed" && early == 0) {
+			return "bad-op"
 		}
 		p.lastInRange = false
 		for _, r := range p.cfg.Conditions.StatusCode {
-			if early == 1 && d.early >= r.From && d.early <= r.To {
+			if ep == "r" && early == 1 && d.early >= r.From && d.early <= r.To {
 				p.lastInRange = true
 			}
 		}
 		b := p.base()
-		acts, err := runner.DispatchOnRequest(lunarMessages.OnRequest{
-			ID: proto.Dec(idE), SequenceID: proto.Dec(sE), Method: "GET", Scheme: "https", URL: dispURL,
-			Path: "/orders", Headers: hdr, Time: p.clk.Now(),
-		}, d.tree, d.policies, svc, dworker)
+		acts, err := runner.DispatchOnRequest(d.request(p, proto.Dec(idE), proto.Dec(sE), ep, early == 1),
+			d.tree, d.policies, svc, dworker)
 		p.quiesce(b)
 		if err != nil {
 			return "err:" + proto.Enc(err.Error())
@@ -160,15 +224,22 @@ func dispatchOp(st *caseState, w []string) string {
 		if p == nil || d == nil || !ok1 || !ok2 || !ok3 {
 			return "bad-op"
 		}
+		ep, okE := kvS(w, "ep")
+		if !okE {
+			ep = "r"
+		}
+		if ep != "r" && ep != "n" {
+			return "bad-op"
+		}
 		p.lastInRange = false
 		for _, r := range p.cfg.Conditions.StatusCode {
-			if int(status) >= r.From && int(status) <= r.To {
+			if ep == "r" && int(status) >= r.From && int(status) <= r.To {
 				p.lastInRange = true
 			}
 		}
 		b := p.base()
 		acts, err := runner.DispatchOnResponse(lunarMessages.OnResponse{
-			ID: proto.Dec(idE), SequenceID: proto.Dec(sE), Method: "GET", URL: dispURL, Status: int(status),
+			ID: proto.Dec(idE), SequenceID: proto.Dec(sE), Method: "GET", URL: d.url[ep], Status: int(status),
 			Headers: map[string]string{}, Time: p.clk.Now(),
 		}, d.tree, &d.policies.Global, svc, dworker)
 		p.quiesce(b)
